@@ -18,6 +18,41 @@ def propStr : Option Bool → String
   | some true => "P=1"
   | some false => "P=0"
 
+/-! ### C10 -/
+
+def parseChunks (s : String) : Option (List Range.Chunk) :=
+  if s == "-" then some [] else
+  let rec go (toks : List String) (num start : Nat) (acc : Array Range.Chunk) : Option (List Range.Chunk) :=
+    match toks with
+    | [] => some acc.toList
+    | t :: rest =>
+      match t.splitOn ":" with
+      | [l, v] =>
+        match l.toNat?, v.toInt? with
+        | some l, some v => go rest (num + 1) (start + l) (acc.push ⟨num, start, l, v⟩)
+        | _, _ => none
+      | _ => none
+  go (s.splitOn ",") 0 0 #[]
+
+def parsePairs (s : String) : Option (List (Nat × Nat)) :=
+  if s == "-" then some [] else
+  (s.splitOn ",").mapM fun t =>
+    match t.splitOn ":" with
+    | [a, b] => do some ((← a.toNat?), (← b.toNat?))
+    | _ => none
+
+def showPairs (l : List (Nat × Nat)) : String :=
+  if l.isEmpty then "-" else ",".intercalate (l.map fun p => s!"{p.1}:{p.2}")
+
+def showRangeOut (o : C10.Out) : String :=
+  s!"OK {o.text.getD "-"} {o.count} {showPairs o.index}"
+
+def parseRangeOut (toks : List String) : Option C10.Out :=
+  match toks with
+  | ["OK", t, c, idx] => do
+    some ⟨if t == "-" then none else some t, (← c.toNat?), (← parsePairs idx)⟩
+  | _ => none
+
 def handle (op : String) (args : List String) (impl : Option (List String)) : String × Option Bool :=
   match op, args with
   | "CI_ENC", [v] =>
@@ -47,6 +82,15 @@ def handle (op : String) (args : List String) (impl : Option (List String)) : St
       let r := Compint.decInt bs pos maxLen
       let pv := impl.bind parseRes |>.map (C20.c20_dec_ok bs pos maxLen (2^31))
       (showRes r, if impl.isSome && pv.isNone then some false else pv)
+    | _, _, _ => ("BADOP", none)
+  | "RANGE", [h, cs, lim] =>
+    match h.toNat?, parseChunks cs, lim.toInt? with
+    | some hdr, some chunks, some limit =>
+      let m := C10.modelOut hdr chunks limit
+      let pv := match impl with
+        | none => none
+        | some i => some ((parseRangeOut i).map (C10.c10_ok hdr chunks limit) |>.getD false)
+      (showRangeOut m, pv)
     | _, _, _ => ("BADOP", none)
   | _, _ => ("BADOP", none)
 
